@@ -37,7 +37,16 @@ func asCodec(v any) Codec {
 	return nil
 }
 
+// ctorMode: build messages and receivers with the library's own constructors (NewT) instead
+// of composite literals, where the pinned tree has one.  Set per run from the tape.
+var ctorMode bool
+
 func newValue(name string) any {
+	if ctorMode {
+		if f, ok := typeNewFuncs[name]; ok {
+			return f()
+		}
+	}
 	c, ok := typeCtors[name]
 	if !ok {
 		infraFatal("unknown type %s", name)
@@ -623,6 +632,8 @@ func numBitsFor(k reflect.Kind, mode int, pick int, r uint64) uint64 {
 		return mask >> 1 // max signed
 	case 5:
 		return 0x0102030405060708 & mask // asymmetric bytes: byte order visible
+	case 6:
+		return (2 + r%15) & mask // small integers 2..16: enumeration-like fields (platform ids, sides, flags)
 	}
 	if mode == 1 {
 		return mask
@@ -814,6 +825,36 @@ func (g *Gen) fillWithKey(rv reflect.Value, ts *TypeSchema, key *TableKey) {
 			infraFatal("unknown schema kind %s", f.Kind)
 		}
 	}
+	g.relateFields(rv, ts)
+}
+
+// relateFields makes, now and then, a plain numeric field of a struct equal to the length of a
+// sibling text or list (protocols carry such redundant lengths next to the data: an independent
+// draw per field would almost never produce the coincidence that every real sender produces).
+func (g *Gen) relateFields(rv reflect.Value, ts *TypeSchema) {
+	if g.t.Intn(6) != 0 {
+		return
+	}
+	var nums, sized []int
+	for i := range ts.Fields {
+		f := &ts.Fields[i]
+		switch f.Kind {
+		case "num":
+			if f.Computed == "" && f.Name != ts.Discriminator {
+				nums = append(nums, i)
+			}
+		case "str", "fixstr", "numlist", "fixstrlist", "strlist", "objlist":
+			if f.Name != ts.Discriminator {
+				sized = append(sized, i)
+			}
+		}
+	}
+	if len(nums) == 0 || len(sized) == 0 {
+		return
+	}
+	nf := fieldOf(rv, ts.Fields[nums[g.t.Intn(len(nums))]].Name)
+	sf := fieldOf(rv, ts.Fields[sized[g.t.Intn(len(sized))]].Name)
+	setBits(nf, uint64(sf.Len()))
 }
 
 func bulkFixText(b *bulk, g *Gen, width int, pad byte, padLeft bool) string {
@@ -954,9 +995,9 @@ func describeSpan(s Span) string {
 // variantOf returns a close relative of a message: some texts cut to a prefix, emptied or
 // extended, some lists truncated, emptied or extended with copies, some numbers zeroed, nested
 // parts recursively; discriminators (hence body types) are kept.  Used to build receiver and
-// process histories in which what was held before is *related* to what arrives now.  The result
-// need not be canonical (a cut text may end in its pad byte): it is only ever used through its
-// encoding.
+// process histories in which what was held before is *related* to what arrives now, and as
+// the next message of a stream.  A canonical value stays canonical (a cut fixed-width text is
+// re-trimmed on its pad side; list lengths stay within their prefix).
 func variantOf(v any, b *bulk) any {
 	c := Clone(v)
 	varyValue(reflect.ValueOf(c).Elem(), schemaOf(typeNameOf(c)), b)
@@ -1017,6 +1058,13 @@ func varyValue(rv reflect.Value, ts *TypeSchema, b *bulk) {
 		case "fixstr":
 			if !isDisc {
 				varyText(fv, f.Width, b)
+				// keep the value canonical: no pad byte on the pad side
+				pad := string([]byte{byte(f.Pad)})
+				if f.PadLeft {
+					fv.SetString(strings.TrimLeft(fv.String(), pad))
+				} else {
+					fv.SetString(strings.TrimRight(fv.String(), pad))
+				}
 			}
 		case "str":
 			varyText(fv, min(prefixMax(f.Prefix), fv.Len()+8), b)
